@@ -8,6 +8,7 @@
 #include <cstring>
 #include <cstdint>
 #include <unistd.h>
+#include <sys/wait.h>
 #include <fstream>
 #include <iostream>
 #include <locale>
@@ -130,6 +131,51 @@ static std::string fullApi(const ParameterTree& pt, const std::vector<std::strin
   if (!qs.empty()) {
     try { std::ostringstream os; pt.sub(qs[0]).report(os); out += " r=" + hex(os.str()); } catch (const Dune::RangeError&) { out += " r=E"; }
   }
+  // ALIASING: the source of an assignment is a subtree of the target (t = t.sub(k)) or contains the target
+  // (t.sub(k) = t); value semantics: the source is read before the target is written.  Run in a child process: with
+  // the implicitly generated operator= this is undefined behaviour (F-C12-4) and may corrupt the heap.
+  if (!qs.empty()) {
+    std::string want = "E";
+    try { want = dump(pt.sub(qs[0])); } catch (const Dune::RangeError&) {}
+    std::string verdict = "ok";
+#if defined(__SANITIZE_ADDRESS__)
+    const unsigned stride = 16;      // fork() is expensive under ASan
+#else
+    const unsigned stride = 3;
+#endif
+    static unsigned counter = 0;
+    if (want != "E" && (counter++ % stride == 0)) {
+      std::cout.flush();
+      int fd[2]; if (pipe(fd) != 0) return out + " AL=pipe-error";
+      pid_t pid = fork();
+      if (pid == 0) {
+        close(fd[0]);
+        alarm(5);                    // undefined behaviour may also loop for ever
+        char r = 'o';
+        try {
+          std::string d0 = dump(pt);
+          { ParameterTree al(pt); const ParameterTree& cal = al; al = cal.sub(qs[0]); if (dump(al) != want) r = 's'; }
+          if (r == 'o' && pt.hasSub(qs[0])) { ParameterTree al(pt); al.sub(qs[0]) = al; const ParameterTree& cal = al; if (dump(cal.sub(qs[0])) != d0) r = 'c'; }
+        } catch (...) { r = 'x'; }
+        (void) !write(fd[1], &r, 1);
+        _exit(0);
+      }
+      close(fd[1]);
+      char r = 0; ssize_t n = read(fd[0], &r, 1); close(fd[0]);
+      int status = 0; waitpid(pid, &status, 0);
+      if (n != 1) verdict = "crash-or-hang";
+      else if (r == 's') verdict = "subtree-into-tree-wrong";
+      else if (r == 'c') verdict = "tree-into-its-subtree-wrong";
+      else if (r == 'x') verdict = "exception";
+    }
+    out += " AL=" + verdict;
+  }
+  // a COPY of a subtree (it keeps the subtree's prefix; a copy of a missing subtree is the static empty tree with
+  // prefix "<unknown>") as receiver of operator[] and source of report()
+  if (!qs.empty()) {
+    try { ParameterTree sc(pt.sub(qs[0])); sc["n.m"] = "1"; std::ostringstream os; sc.report(os); out += " rc=" + hex(os.str()); }
+    catch (const Dune::RangeError&) { out += " rc=E"; }
+  }
   // report() read back by readINITree into an empty tree (what the suite's testReport does for one tree)
   {
     std::stringstream os; pt.report(os);
@@ -149,6 +195,20 @@ static std::string fullApi(const ParameterTree& pt, const std::vector<std::strin
     std::string c = (dump(m) == d0 ? "" : "move-ctor ") + std::string(dump(m2) == d0 ? "" : "move-assign ") + (dump(pt) == d0 ? "" : "source ");
     ParameterTree self(pt); self = *&self;
     if (dump(self) != d0) c += "self-assign ";
+    { // swap; a moved-from tree must be assignable and usable again
+      ParameterTree x(pt), y; y["s"] = "1";
+      std::swap(x, y);
+      if (dump(y) != d0 || dump(x) != "{73=31;|}") c += "swap ";
+      ParameterTree z(std::move(y));
+      y = pt; if (dump(y) != d0) c += "assign-to-moved-from ";
+      ParameterTree w(std::move(y)); y["n"] = "2";
+      try { if (!y.hasKey("n") || y.get<int>("n") != 2) c += "use-moved-from "; } catch (const Dune::Exception&) { c += "use-moved-from "; }
+    }
+    { // report() with its default arguments (std::cout, "") = report(os, "")
+      std::ostringstream a1, a2; pt.report(a1, "");
+      std::streambuf* old = std::cout.rdbuf(a2.rdbuf()); pt.report(); std::cout.rdbuf(old);
+      if (a1.str() != a2.str()) c += "report-defaults ";
+    }
     out += " C=" + (c.empty() ? std::string("ok") : c);
   }
   return out;
@@ -166,6 +226,12 @@ static std::string show(const double& v)   // exact: the IEEE bit pattern
   std::uint64_t b; std::memcpy(&b, &v, sizeof b);
   char buf[32]; std::snprintf(buf, sizeof buf, "d:%016llx", (unsigned long long) b); return buf;
 }
+static std::string show(const float& v)
+{
+  std::uint32_t b; std::memcpy(&b, &v, sizeof b);
+  char buf[32]; std::snprintf(buf, sizeof buf, "f:%08x", (unsigned) b); return buf;
+}
+template<class T> static std::string show(const std::vector<T>& v);
 static std::string show(const char& v) { return "x" + std::string(1, "0123456789abcdef"[(unsigned char) v >> 4]) + std::string(1, "0123456789abcdef"[v & 15]); }
 static std::string show(const bool& v) { return v ? "1" : "0"; }
 static std::string show(const std::string& v) { return "x" + hex(v); }
@@ -198,6 +264,14 @@ static std::string getAs(const std::string& value)
   catch (const std::exception& e) { return std::string("EXC std::exception:") + e.what(); }
 }
 
+template<class T>
+static std::string getAsChar(const std::string& value)   // the character types are extracted as characters
+{
+  ParameterTree pt; pt["k"] = value;
+  try { return "OK " + show((char) pt.get<T>("k")); }
+  catch (const Dune::RangeError&) { return "EXC RangeError"; }
+}
+
 static std::string getCase(const std::string& ty, const std::string& v)
 {
   if (ty == "int") return getAs<int>(v);
@@ -216,6 +290,12 @@ static std::string getCase(const std::string& ty, const std::string& v)
   if (ty == "bits1") return getAs<std::bitset<1>>(v);
   if (ty == "bits8") return getAs<std::bitset<8>>(v);
   if (ty == "bits0") return getAs<std::bitset<0>>(v);
+  if (ty == "llong") return getAs<long long>(v);
+  if (ty == "ullong") return getAs<unsigned long long>(v);
+  if (ty == "uchar") return getAsChar<unsigned char>(v);
+  if (ty == "schar") return getAsChar<signed char>(v);
+  if (ty == "flt") return getAs<float>(v);
+  if (ty == "vecvec") return getAs<std::vector<std::vector<int>>>(v);
   if (ty == "short") return getAs<short>(v);
   if (ty == "ushort") return getAs<unsigned short>(v);
   if (ty == "char") return getAs<char>(v);
@@ -302,8 +382,37 @@ int main(int argc, char** argv)
           if (s1 != s0 || (s0 == "ok" && s1 + " " + dump(r1) != o0)) ov += "stream-returning ";
           if (s2 != s0 || (s0 == "ok" && s2 + " " + dump(r2) != o0)) ov += "file-returning ";
         }
+        if (ow) { // default arguments: readINITree(in, pt) and readINITree(file, pt) overwrite
+          { ParameterTree p2(pre); std::istringstream in(doc); std::string s2 = guarded([&] { ParameterTreeParser::readINITree(in, p2); });
+            if (s2 + " " + dump(p2) != obs) ov += "stream-defaults "; }
+          { ParameterTree p2(pre); std::string s2 = guarded([&] { ParameterTreeParser::readINITree(tmpFile(), p2); });
+            if (s2 + " " + dump(p2) != obs) ov += "file-defaults "; }
+        }
+        std::remove(tmpFile().c_str());     // nothing is left behind even if a later case kills the process
         out += " ov=" + (ov.empty() ? std::string("ok") : ov);
       }
+    }
+    else if (t[0] == "seq") {
+      // an object history: several sources / command lines read one after the other into the same tree -- or into
+      // a subtree of it (t[1], "-" = the tree itself) -- going on after every exception
+      ParameterTree root;
+      out = "";
+      for (std::size_t i = 2; i + 1 < t.size(); i += 2) {
+        std::string st;
+        try {
+          ParameterTree& target = (t[1] == "-") ? root : root.sub(strField(t[1]));
+          if (t[i][0] == 'I') st = guarded([&] { readDoc(strField(t[i+1]), target, t[i][1] == '1'); });
+          else {
+            std::vector<std::string> args = listField(t[i+1]);
+            std::vector<std::vector<char>> store; store.emplace_back(std::vector<char>{'p', 0});
+            for (const auto& a : args) { store.emplace_back(a.begin(), a.end()); store.back().push_back(0); }
+            std::vector<char*> av; for (auto& x : store) av.push_back(x.data()); av.push_back(nullptr);
+            st = guarded([&] { ParameterTreeParser::readOptions((int) store.size(), av.data(), target); });
+          }
+        } catch (const Dune::RangeError&) { st = "RangeError"; }
+        out += st + ",";
+      }
+      out += " " + dump(root);
     }
     else if (t[0] == "nofile") {
       std::string name = "/nonexistent/c12/" + strField(t[1]);
@@ -333,7 +442,13 @@ int main(int argc, char** argv)
         // help strings (only used for messages): a vector shorter, equal or longer than the keyword list
         std::vector<std::string> help;
         for (unsigned i = 0; i < req % 5; ++i) help.push_back(i % 2 ? "" : "help text");
-        if (req % 5 == 0)
+        if (req == 4294967295u && t[2] == "1" && t[3] == "1")       // every default argument
+          st = guarded([&] { ParameterTreeParser::readNamedOptions((int) store.size(), av.data(), pt, kw); });
+        else if (req % 5 == 0 && t[2] == "1" && t[3] == "1")        // allow_more, overwrite, help defaulted
+          st = guarded([&] { ParameterTreeParser::readNamedOptions((int) store.size(), av.data(), pt, kw, req); });
+        else if (req % 5 == 0 && t[3] == "1")                       // overwrite, help defaulted
+          st = guarded([&] { ParameterTreeParser::readNamedOptions((int) store.size(), av.data(), pt, kw, req, t[2] == "1"); });
+        else if (req % 5 == 0)
           st = guarded([&] { ParameterTreeParser::readNamedOptions((int) store.size(), av.data(), pt, kw, req, t[2] == "1", t[3] == "1"); });
         else
           st = guarded([&] { ParameterTreeParser::readNamedOptions((int) store.size(), av.data(), pt, kw, req, t[2] == "1", t[3] == "1", help); });
